@@ -145,3 +145,45 @@ func contract_Decoder_parseString(d *Decoder) (s string, err error) {
 	modifiesPtr(d)
 	return
 }
+
+// ---------------------------------------------------------------- Encoder write methods: frame summaries
+//
+// The write methods append to the encoder's own buffers (out, indents) and update its state.
+// Callers under contract (prototext's marshalUnknown) only need the frame: nothing outside the
+// encoder is written. ASSUMED, not proved: the encoder's buffers do not overlap the caller's data.
+
+// @ trusted
+func contract_Encoder_StartMessage(e *Encoder) {
+	modifiesPtr(e)
+	return
+}
+
+// @ trusted
+func contract_Encoder_EndMessage(e *Encoder) {
+	modifiesPtr(e)
+	return
+}
+
+// @ trusted
+func contract_Encoder_WriteName(e *Encoder, s string) {
+	modifiesPtr(e)
+	return
+}
+
+// @ trusted
+func contract_Encoder_WriteString(e *Encoder, s string) {
+	modifiesPtr(e)
+	return
+}
+
+// @ trusted
+func contract_Encoder_WriteUint(e *Encoder, n uint64) {
+	modifiesPtr(e)
+	return
+}
+
+// @ trusted
+func contract_Encoder_WriteLiteral(e *Encoder, s string) {
+	modifiesPtr(e)
+	return
+}
